@@ -61,6 +61,7 @@ def _finish_pass(env, jb, kw, seed, want_props, res, agg, seen_names, S, core, l
     for k, v in env.z3_stats.items():
         agg["z3"][k] = agg["z3"].get(k, 0) + v
     agg["atoms"] = max(agg["atoms"], len(S.A.names))
+    agg["iv_boxes"] = agg.get("iv_boxes", 0) + getattr(env, "iv_boxes", 0)
     if env.z3_disagreements:
         raise RuntimeError("back-end disagreement: z3 finds a point where a discharged identity fails: %s" % env.z3_disagreements[:3])
     if S.TINY_SEEN:
@@ -181,6 +182,7 @@ def run_one(args):
         res["roundoff"] = agg["roundoff"]
         res["z3"] = agg["z3"]
         res["atoms"] = agg["atoms"]
+        res["iv_boxes"] = agg.get("iv_boxes", 0)
     except Exception as e:
         res["error"] = "%s: %s" % (type(e).__name__, e)
         res["trace"] = traceback.format_exc()[-3000:]
